@@ -135,3 +135,22 @@ MODULES["Solve"] = dict(
         dict(name="determinant", file=M_SOL, impl=SOL_IMPL, fn="determinant"),
         dict(name="inverse", file=M_SOL, impl=SOL_IMPL, fn="inverse"),
     ])
+
+MODULES["MatArith"] = dict(
+    imports="From OV Require Import Base.Panic Base.Arith Model.Vector Model.Matrix gen.SrcPrelude.",
+    funcs=[
+        dict(name="mneg", file=M_ARI, impl=r"Negfor&Matrix<T>$", fn="neg"),
+        dict(name="madd", file=M_ARI, impl=r"Add<&Matrix<T>>for&Matrix<T>$", fn="add"),
+        dict(name="msub", file=M_ARI, impl=r"Sub<&Matrix<T>>for&Matrix<T>$", fn="sub"),
+        dict(name="mscale", file=M_ARI, impl=r"Mul<T>for&Matrix<T>$", fn="mul"),
+        dict(name="mscale_l", file=M_ARI, impl=r"^Mul<Matrix<f64>>forf64$", fn="mul"),
+        dict(name="mdiv", file=M_ARI, impl=r"Div<T>for&Matrix<T>$", fn="div"),
+        dict(name="madd_assign", file=M_ARI, impl=r"AddAssign<&Matrix<T>>forMatrix<T>$", fn="add_assign"),
+        dict(name="msub_assign", file=M_ARI, impl=r"SubAssign<&Matrix<T>>forMatrix<T>$", fn="sub_assign"),
+        dict(name="mmul_assign_scalar", file=M_ARI, impl=r"MulAssign<T>forMatrix<T>$", fn="mul_assign"),
+        dict(name="mdiv_assign_scalar", file=M_ARI, impl=r"DivAssign<T>forMatrix<T>$", fn="div_assign"),
+        dict(name="madd_assign_scalar", file=M_ARI, impl=r"AddAssign<T>forMatrix<T>$", fn="add_assign"),
+        dict(name="msub_assign_scalar", file=M_ARI, impl=r"SubAssign<T>forMatrix<T>$", fn="sub_assign"),
+        dict(name="mat_mul", file=M_ARI, impl=r"Mul<&Matrix<T>>for&Matrix<T>$", fn="mul"),
+        dict(name="mat_vec_mul", file=M_ARI, impl=r"Mul<&Vector<T>>for&Matrix<T>$", fn="mul"),
+    ])
